@@ -194,6 +194,37 @@ def corpus_cases(ctx: Ctx) -> list[tuple[Any, list[str], list[str]]]:
 	return out
 
 
+def stream_programs(ctx: Ctx) -> Stream:
+	"""whole function bodies of generated programs with user classes (harness/c03_prog_stream.py)"""
+	from harness import c03_progs, c03_prog_stream
+	rng = ctx.sub_rng('infer-programs')
+	cases: list[tuple[Any, list[str], list[str]]] = []
+	skipped = 0
+	sess = Session(ctx)
+	for i in range(ctx.scale(20, 300)):
+		if i % 50 == 49:
+			sess = Session(ctx)
+		src, _, _, _ = c03_progs.generate(random.Random(rng.random()), allow_hetero=rng.random() < 0.3, modelled=True)
+		try:
+			case = c03_prog_stream.program_case(sess, src)
+		except Exception:  # noqa: BLE001 - a program tranp cannot load is a search matter (search_typed_programs), not a correspondence case
+			case = None
+		if case is None:
+			skipped += 1
+			continue
+		desc, ops, real = case
+		cases.append((desc, ['new', *ops] if not cases else ops, ['ok', *real] if not cases else real))
+	hist: Counter[str] = Counter()
+	for d, _, _ in cases:
+		hist.update(d['hist'])
+	st = common.correspond('infer-programs', cases, 'infer')
+	st.histogram = dict(hist)
+	st.note = (f'generated programs with user classes (single inheritance, instance / class variables, properties, methods, classmethods, '
+		f'both iterator protocol forms): per function body `env`, then decl / for / here ops over a growing environment; class table read from '
+		f'the source with CPython ast; skipped programs: {skipped}')
+	return st
+
+
 # ---------------------------------------------------------------------------------------------
 # stream `pytype`
 
@@ -363,7 +394,7 @@ def search_exprs(ctx: Ctx) -> SearchResult:
 	n_sessions = ctx.scale(2, 8)
 	for si in range(n_sessions):
 		sess = Session(ctx)
-		for pi in range(ctx.scale(10, 40)):
+		for pi in range(ctx.scale(8, 40)):
 			fns = []
 			for i in range(8):
 				g = X.Gen(rng, SEARCH_ENV, 'search')
@@ -407,7 +438,7 @@ def search_programs(ctx: Ctx) -> SearchResult:
 	res = SearchResult('whole generated programs: every declaration and expression site, real type_of vs CPython run-time type')
 	sess = Session(ctx)
 	seen: set[str] = set()
-	for pi in range(ctx.scale(40, 400)):
+	for pi in range(ctx.scale(24, 400)):
 		if pi % 60 == 59:
 			sess = Session(ctx)
 		try:
@@ -430,7 +461,7 @@ def search_typed_programs(ctx: Ctx) -> SearchResult:
 	res = SearchResult('typed whole programs (classes, Enum, Generic, optionals, containers of objects): real type_of vs CPython run-time type')
 	sess = Session(ctx)
 	seen: set[str] = set()
-	for pi in range(ctx.scale(25, 250)):
+	for pi in range(ctx.scale(16, 250)):
 		if pi % 40 == 39:
 			sess = Session(ctx)
 		src, entry, args, hist = c03_progs.generate(random.Random(rng.random()), allow_hetero=rng.random() < 0.7)
@@ -451,6 +482,11 @@ STATEMENTS: dict[str, str] = {
 	'total': 'on Core inference never fails and the inferred type contains no Unknown (env without Unknown)',
 	'session_independent': 'for EVERY expression (also ill-typed ones): infer Γ e s = ((infer Γ e false).1, s) — no handler reads or writes the session state (false before 401dc97)',
 	'template': 'list[T].pop() is typed T for EVERY type T (Unions, nested generics): proved on the step-by-step port of TemplateManipulator by induction on T (false before e9f8d3f)',
+	'chain_type / chain_left_nested': 'for a flat operator chain in Core with a scalar value the inferred (= emitted) type is the type of the left-nested CPython evaluation, each step with its own operator',
+	'sound_decl / sound_for': 'a declaration takes its value\'s type and the extended environment still conforms after CPython executed it; the targets of a for clause are bound to types denoting every item',
+	'sound_iter / iter_type / iterates_user': 'the loop-variable type (IteratorTrait: __next__ before __iter__, Iterator<T> unwrapped) denotes every value the variable takes: list/dict/Iterator sources for EVERY element type (proved through the TemplateManipulator port), views, and user classes following either iterator-protocol form',
+	'sound_attr': 'r.a on an instance of a user class (instance variable, class variable, property) through the single-inheritance chain: inferred = declared type of the first member on the chain, and it denotes the value CPython reads (instance dict, then class); method calls and constructors are part of sound_conf',
+	'var_at / class_scope_rule': 'the Var handler over the environment induced by C08\'s symbol-table model (find_by_symbolic, allow_scope) answers the type of the symbol found; on the nested-class program a bare name in the nested class body / a method is the module-level symbol, directly in the class body the class variable',
 	'list_literal_counterexample': 'known finding list-literal-class-dedup: [[None], [1]] is typed list<list<int>> (outside Core)',
 	'dict_get_counterexample': 'known finding dict-get-missing-key: d.get("z") typed int, CPython returns None (outside Core)',
 	'abs_bool_counterexample': 'known finding abs-of-bool: abs(True) typed bool, CPython: int',
@@ -464,8 +500,9 @@ PARTIAL = {
 	'proved': 'int/float/bool/str, list[T], dict[K,V], tuple[...], optionals (as denotation of a Union), stub generics with their arguments (list/dict/str methods, len/abs/min/max/int/float/bool/str/list/range/reversed/enumerate), '
 		'literals, variables, unary/binary operators, comparisons, and/or/not, ternary, subscripts, slices, groups, list/dict comprehensions: soundness and totality on the model, by induction on expressions; '
 		'session independence for all expressions; template substitution of list.pop for all element types',
-	'correspondence_only': 'that the model IS the code: ProceduralResolver handlers, try_operation, TemplateManipulator path matching (stream infer, shared sessions = history); CPython semantics of the core (stream pytype)',
-	'search_only': 'scope lookup (incl. shadowing through nested classes), inheritance walk, user classes and their attributes/methods, Enum, user generics, resolve_unknown laziness, statements (for/while/try), declarations',
+	'correspondence_only': 'that the model IS the code: ProceduralResolver handlers, try_operation, TemplateManipulator path matching (stream infer, shared sessions = history), member lookup through the inheritance chain, on_relay, constructors, IteratorTrait, declaration typing of whole function bodies (stream infer-programs); CPython semantics of the core (stream pytype)',
+	'search_only': 'that the class-scope visibility rule equals CPython\'s scoping (LEGB) — the Lean side states the rule on C08\'s Scope model and checks it on the nested-class program, the equality with CPython is exhibited by the recorder search (shadowing through nested classes); Enum, user generics, nested classes, imports, resolve_unknown laziness, while/try/with, augmented and attribute assignments',
+	'assumed_of_user_code (WorldConf)': 'constructor / method / property / class-variable / __next__ results conform to their DECLARED types (each method body\'s own typing obligation; method bodies are typed statement by statement by sound_decl / sound_conf but not executed by the model)',
 	'still_false_on_the_code (known findings)': 'list-literal-class-dedup, dict-get-missing-key, abs-of-bool, list-of-dict-items, boolop-nonbool-operands, tuple-slice-nonliteral-bounds, ternary-union-of-containers (each with a proved counterexample outside Core), min-max-mixed-numeric, union-of-subclasses-attribute, explicit-init-call (floats / user classes are outside the model: corpus witness only); every one is generated at a low rate and replayed from corpus/C03 first',
 }
 
@@ -494,7 +531,7 @@ def run(ctx: Ctx) -> int:
 		translate_ok, translate_msg = False, f'{type(e).__name__}: {e}'
 	proof = common.prove(ctx, PROP, leanchecker=ctx.thorough)
 	with ctx.timed('correspondence'):
-		streams = [stream_infer(ctx), stream_pytype(ctx)]
+		streams = [stream_infer(ctx), stream_programs(ctx), stream_pytype(ctx)]
 	with ctx.timed('search'):
 		searches = [search_witnesses(ctx), search_exprs(ctx), search_programs(ctx), search_typed_programs(ctx)]
 	# findings outside the understood failing-input classes first (finish prints at most five VIOLATION lines)
